@@ -140,6 +140,14 @@ def ex_catalog(ctx, ev, catalog_id=None, name=None, lat_case=None, header=True, 
         else:
             report(ctx, rc, "dict", src, got, tags)
             meta_checks(ctx, rc, "dict", src, got, tags, model)
+            # the dictionary is a persisted form: loading it does not use it up - a second load of the same object gives the same catalog
+            ok, got2, tb = ctx.call(CSEPCatalog.from_dict, d)
+            ctx.mon("roundtrip:dict-loaded-twice", 1)
+            if not ok:
+                ctx.violate("second load of the same dictionary raised", rc, observed=repr(got2), tb=tb, tags=dict(tags, route="dict:second-load", clause="raised"))
+            else:
+                report(ctx, rc, "dict:second-load", src, got2, tags)
+                meta_checks(ctx, rc, "dict:second-load", src, got2, tags, model)
         # ---- json
         jpath = os.path.join(tmp, "cat.json")
         ok, _, tb = ctx.call(src.write_json, jpath)
